@@ -52,6 +52,7 @@ fn run(ctx: &Ctx, out: &mut Out) {
             }
         }
     }
+    leg_confusable(ctx, out);
     leg_wide(ctx, out);
     leg_typed_witness(ctx, out);
     leg_widths(ctx, out);
@@ -417,6 +418,107 @@ fn redeem_roundtrip(p: &Prog, wit: &[Option<Rc<RV>>], jets: &JetCodes, out: &mut
         }
     }
     Ok(())
+}
+
+/// Expressions for the `confusable` leg: a tiny tree language flattened into a canonical, maximally shared DAG.
+#[derive(Clone, PartialEq, Eq, Hash, Debug)]
+pub enum Ex {
+    Leaf(Sym),
+    Un(Sym, Box<Ex>),
+    Bin(Sym, Box<Ex>, Box<Ex>),
+}
+
+pub fn ex_to_dag(e: &Ex) -> Dag {
+    fn go(e: &Ex, dag: &mut Dag, memo: &mut std::collections::HashMap<Ex, u8>) -> u8 {
+        if let Some(i) = memo.get(e) {
+            return *i;
+        }
+        let node = match e {
+            Ex::Leaf(s) => Node { sym: *s, l: 0, r: 0 },
+            Ex::Un(s, a) => {
+                let l = go(a, dag, memo);
+                Node { sym: *s, l, r: 0 }
+            }
+            Ex::Bin(s, a, b) => {
+                let l = go(a, dag, memo);
+                let r = go(b, dag, memo);
+                Node { sym: *s, l, r }
+            }
+        };
+        dag.push(node);
+        let i = (dag.len() - 1) as u8;
+        memo.insert(e.clone(), i);
+        i
+    }
+    let mut dag = vec![];
+    go(e, &mut dag, &mut std::collections::HashMap::new());
+    dag
+}
+
+/// every expression made of one constructor of the alphabet over the children {unit, iden}
+pub fn one_constructor_exprs(fam: Fam) -> Vec<Ex> {
+    let kids = [Ex::Leaf(Sym::Unit), Ex::Leaf(Sym::Iden)];
+    let mut v = vec![];
+    for sym in sigma_p(fam) {
+        match sym.arity() {
+            0 => {
+                if sym != Sym::Witness {
+                    v.push(Ex::Leaf(sym))
+                }
+            }
+            1 => {
+                for k in &kids {
+                    v.push(Ex::Un(sym, Box::new(k.clone())));
+                }
+            }
+            _ => {
+                for a in &kids {
+                    for b in &kids {
+                        v.push(Ex::Bin(sym, Box::new(a.clone()), Box::new(b.clone())));
+                    }
+                }
+            }
+        }
+    }
+    v
+}
+
+/// Confusable siblings: two *different* one-constructor expressions F, G side by side in one program,
+/// `comp witness (comp (pair F G) unit)`, for every ordered pair over the whole alphabet. Whatever the encoder uses
+/// to decide that two nodes are the same (first-pass identity hashes, arrows, hidden roots) has to tell every such
+/// pair apart: assertl x h / assertr h x, injl / injr, take / drop, swapped children, different entropy, ...
+fn leg_confusable(ctx: &Ctx, out: &mut Out) {
+    let leg = "confusable";
+    for fam in [Fam::Core, Fam::Elements] {
+        let jets = JetCodes::new(fam);
+        let exprs = one_constructor_exprs(fam);
+        for f in &exprs {
+            if !ctx.mine() {
+                continue;
+            }
+            for g in &exprs {
+                if f == g {
+                    continue;
+                }
+                let host = Ex::Bin(
+                    Sym::Comp,
+                    Box::new(Ex::Leaf(Sym::Witness)),
+                    Box::new(Ex::Bin(Sym::Comp, Box::new(Ex::Bin(Sym::Pair, Box::new(f.clone()), Box::new(g.clone()))), Box::new(Ex::Leaf(Sym::Unit)))),
+                );
+                let dag = ex_to_dag(&host);
+                if !is_canonical(&dag) {
+                    out.violation("confusable:not-canonical", leg, render(&dag, fam), "machinery: flattened DAG is not canonical".into());
+                    continue;
+                }
+                let Some(p) = Prog::new(&dag, fam) else {
+                    out.outcome("confusable:ill-typed-pair");
+                    continue;
+                };
+                out.count("confusable-pairs", 1);
+                check_prog(ctx, out, leg, &p, &jets);
+            }
+        }
+    }
 }
 
 /// every jet, wide witness types on corner values: programs `comp (comp witness jet) unit`
